@@ -240,7 +240,7 @@ def _protocol_worker(
     time_points = np.linspace(
         0,
         protocol.index[-1].total_seconds(),
-        len(protocol) * time_points_per_step,
+        len(protocol) * time_points_per_step + 1,
     )
     return res.default(lambda: Simulation.default(model=model, time_points=time_points))
 
